@@ -317,16 +317,31 @@ fn driver_job(job: &J) -> J {
 }
 
 fn main() {
+    std::panic::set_hook(Box::new(|_| {}));
     let path = std::env::args().nth(1).expect("usage: c17-twin jobs.json");
     let jobs: J = serde_json::from_str(&std::fs::read_to_string(&path).expect("read jobs")).expect("parse jobs");
     let out: Vec<J> = jobs
         .as_array()
         .expect("jobs must be a list")
         .iter()
-        .map(|job| match job["kind"].as_str().expect("kind") {
-            "scalar" => json!({"regs": scalar_job(job)}),
-            "driver" => driver_job(job),
-            other => panic!("twin: unknown job kind {other}"),
+        .map(|job| {
+            // a panic inside num-dual (e.g. an arithmetic overflow check) is a result, not a crash of the model
+            let r = std::panic::catch_unwind(std::panic::AssertUnwindSafe(|| match job["kind"].as_str().expect("kind") {
+                "scalar" => json!({"regs": scalar_job(job)}),
+                "driver" => driver_job(job),
+                other => panic!("twin: unknown job kind {other}"),
+            }));
+            match r {
+                Ok(v) => v,
+                Err(p) => {
+                    let msg = p.downcast_ref::<String>().cloned().or_else(|| p.downcast_ref::<&str>().map(|s| s.to_string())).unwrap_or_default();
+                    if msg.starts_with("twin:") {
+                        eprintln!("{msg}");
+                        std::process::exit(3);
+                    }
+                    json!({"panicked": msg})
+                }
+            }
         })
         .collect();
     println!("{}", serde_json::to_string(&out).unwrap());
